@@ -259,6 +259,9 @@ func Implies(a, b *Term) *Term {
 	return App("=>", SBool, a, b)
 }
 
+// strLitHook recognises string literal terms (set by the World).
+var strLitHook func(*Term) (string, bool)
+
 func Eq(a, b *Term) *Term {
 	if a.Sort != b.Sort {
 		panic(fmt.Sprintf("Eq: sort mismatch %s:%s vs %s:%s", a, a.Sort, b, b.Sort))
@@ -280,6 +283,22 @@ func Eq(a, b *Term) *Term {
 				return True
 			}
 			return False
+		}
+	}
+	if a.Op == "sv" && b.Op == "sv" && strLitHook != nil {
+		// comparison with a literal: byte-wise, so that the bytes are known
+		la, aok := strLitHook(a.Args[0])
+		lb, bok := strLitHook(b.Args[0])
+		switch {
+		case aok && bok:
+			if la == lb {
+				return True
+			}
+			return False
+		case bok:
+			return strEqLit(a.Args[0], lb)
+		case aok:
+			return strEqLit(b.Args[0], la)
 		}
 	}
 	if a.Sort == SBool {
